@@ -32,6 +32,7 @@ type methodOut struct {
 	hasChan  bool
 	isLookup bool
 	paths    pset
+	body     *stm
 }
 
 type fileOut struct {
@@ -79,9 +80,10 @@ func analyzeFile(name string, soft bool) *fileOut {
 				fmt.Sprintf("%s:%d:%d: unexpected %s", r.err.pos.Filename, r.err.pos.Line, r.err.pos.Column, r.err.what)})
 			continue
 		}
+		selfCheck(fi, full, r)
 		c := fi.newCtx(fn)
 		out.methods = append(out.methods, methodOut{name: full, hasChan: c.chanName != "",
-			isLookup: c.chanName != "" && len(c.ptrParams) > 0, paths: r.paths})
+			isLookup: c.chanName != "" && len(c.ptrParams) > 0, paths: r.paths, body: r.body})
 	}
 	written := make([]bool, len(fi.fieldNames))
 	for _, m := range out.methods {
@@ -103,6 +105,39 @@ func analyzeFile(name string, soft bool) *fileOut {
 		}
 	}
 	return out
+}
+
+// selfCheck: the 0/1 unfoldings of the structured body must be exactly the flat paths (as a set), and no control
+// path of the body may fall off the end.  A difference is a translator bug: always fatal.
+func selfCheck(fi *fileInfo, name string, r *mresult) {
+	fail := func(format string, args ...interface{}) {
+		fmt.Fprintf(errOut, "genlocks: internal error: self-check of %s (%s) failed: %s\n", name, fi.name, fmt.Sprintf(format, args...))
+		exit(2)
+	}
+	ft, term, ok := r.body.unfold(maxPaths)
+	if !ok {
+		fail("path explosion while unfolding the structured body")
+	}
+	if len(ft) != 0 {
+		fail("%d unfoldings of the structured body do not end in SReturn", len(ft))
+	}
+	flat := map[string]bool{}
+	for _, p := range r.paths {
+		flat[p.key()] = true
+	}
+	str := map[string]bool{}
+	rd := &renderer{fi: fi, human: true}
+	for _, p := range term {
+		str[p.key()] = true
+		if !flat[p.key()] {
+			fail("unfolding %s of m_body is not in m_paths", rd.path(p))
+		}
+	}
+	for _, p := range r.paths {
+		if !str[p.key()] {
+			fail("path %s of m_paths is not an unfolding of m_body", rd.path(p))
+		}
+	}
 }
 
 // ---------------------------------------------------------------- rendering
@@ -223,13 +258,14 @@ func emitTable(b *bytes.Buffer, prefix string, o *fileOut, params map[string]int
 		for j, p := range m.paths {
 			sep := ";"
 			if j == len(m.paths)-1 {
-				sep = " ] |}"
+				sep = " ];"
 			}
 			fmt.Fprintf(b, "       %s%s\n", r.path(p), sep)
 		}
 		if len(m.paths) == 0 {
-			b.WriteString("       ] |}\n")
+			b.WriteString("       ];\n")
 		}
+		fmt.Fprintf(b, "     m_body := %s |}\n", r.stm(m.body))
 		if i != len(o.methods)-1 {
 			b.Truncate(b.Len() - 1)
 			b.WriteString(";\n")
@@ -312,6 +348,7 @@ func dump(w io.Writer, o *fileOut) {
 		for _, p := range m.paths {
 			fmt.Fprintf(w, "    %s\n", r.path(p))
 		}
+		fmt.Fprintf(w, "    body: %s\n", r.stm(m.body))
 	}
 	for _, u := range o.unsupported {
 		fmt.Fprintf(w, "UNSUPPORTED %s: %s\n", u[0], u[1])
